@@ -4,12 +4,16 @@ pub mod api;
 pub mod c28;
 pub mod expr;
 pub mod handler;
+pub mod hist;
 pub mod lit;
 pub mod parse;
 pub mod sched;
 
-pub static ALL: &[&PropDef] = &[&parse::C01, &parse::C02, &expr::C03, &api::C04, &lit::C05, &lit::C06, &lit::C07, &expr::C12, &expr::C13, &sched::C22, &sched::C23, &sched::C24, &sched::C25, &handler::C26, &handler::C27, &c28::DEF, &handler::C31];
+pub static ALL: &[&PropDef] = &[&parse::C01, &parse::C02, &expr::C03, &api::C04, &lit::C05, &lit::C06, &lit::C07, &hist::C08, &hist::C09, &hist::C10, &hist::C11, &expr::C12, &expr::C13, &sched::C22, &sched::C23, &sched::C24, &sched::C25, &handler::C26, &handler::C27, &c28::DEF, &handler::C31];
 
-pub fn extra_command(_cmd: &str, _args: &[String]) -> Option<i32> {
-    None
+pub fn extra_command(cmd: &str, args: &[String]) -> Option<i32> {
+    match cmd {
+        "serialize-histories" => Some(hist::serialize_histories_cmd(args.first().map(|s| s.as_str()).unwrap_or(""))),
+        _ => None,
+    }
 }
